@@ -86,7 +86,7 @@ impl Connection {
             let write = socket.write_all(data.as_slice());
             match time::timeout(Duration::from_secs(WRITE_TIMEOUT_SEC), write).await {
                 Ok(result) => result?,
-                Err(_) => return Err(Error::KeepAliveTimeout.into()),
+                Err(_) => return Err(Error::WriteTimeout.into()),
             }
         }
 
